@@ -131,3 +131,81 @@ def tx_from_case(desc):
                 wit = [[] for _ in range(desc['nin'])]
     m['wit'] = wit
     return m
+
+
+# ---------------------------------------------------------------------------------------------------------------
+# in-place edits of a mutable library transaction, mirrored on the model (for call . edit . call histories on ONE object)
+
+def inplace_edits(m):
+    """-> list of (name, fn(tx, model)); fn changes the CMutableTransaction in place and the model dict the same way.
+    Applied one after the other they walk the object through a chain of distinct states (no undo)."""
+    from bitcoin.core import CMutableTxIn, CMutableTxOut, CMutableOutPoint
+    from bitcoin.core.script import CScript
+    eds = []
+
+    def ed(name):
+        def deco(fn):
+            eds.append((name, fn))
+            return fn
+        return deco
+
+    @ed('locktime')
+    def _(tx, mm):
+        tx.nLockTime = mm['locktime'] = (mm['locktime'] + 1) & 0xffffffff
+
+    @ed('version')
+    def _(tx, mm):
+        tx.nVersion = mm['version'] = 1 if mm['version'] != 1 else 2
+    for i in range(len(m['vin'])):
+        @ed('vin.%d.seq' % i)
+        def _(tx, mm, i=i):
+            tx.vin[i].nSequence = mm['vin'][i]['seq'] = mm['vin'][i]['seq'] ^ 0x00400001
+
+        @ed('vin.%d.n' % i)
+        def _(tx, mm, i=i):
+            tx.vin[i].prevout.n = mm['vin'][i]['n'] = mm['vin'][i]['n'] + 7
+
+        @ed('vin.%d.hash' % i)
+        def _(tx, mm, i=i):
+            tx.vin[i].prevout.hash = mm['vin'][i]['hash'] = bytes(b ^ 0x5a for b in mm['vin'][i]['hash'])
+
+        @ed('vin.%d.script' % i)
+        def _(tx, mm, i=i):
+            mm['vin'][i]['script'] = mm['vin'][i]['script'] + b'\x51'
+            tx.vin[i].scriptSig = CScript(mm['vin'][i]['script'])
+    for j in range(len(m['vout'])):
+        @ed('vout.%d.value' % j)
+        def _(tx, mm, j=j):
+            tx.vout[j].nValue = mm['vout'][j]['value'] = mm['vout'][j]['value'] + 1
+
+        @ed('vout.%d.script' % j)
+        def _(tx, mm, j=j):
+            mm['vout'][j]['script'] = mm['vout'][j]['script'] + b'\x61'
+            tx.vout[j].scriptPubKey = CScript(mm['vout'][j]['script'])
+
+    @ed('append_out')
+    def _(tx, mm):
+        o = default_txout(len(mm['vout']) + 3)
+        mm['vout'].append(o)
+        tx.vout.append(CMutableTxOut(o['value'], CScript(o['script'])))
+
+    @ed('append_in')
+    def _(tx, mm):
+        i = default_txin(len(mm['vin']) + 5)
+        mm['vin'].append(i)
+        tx.vin.append(CMutableTxIn(CMutableOutPoint(i['hash'], i['n']), CScript(i['script']), i['seq']))
+        if mm.get('wit') is not None:
+            mm['wit'].append([])
+
+    @ed('pop_out')
+    def _(tx, mm):
+        mm['vout'].pop()
+        tx.vout.pop()
+
+    @ed('pop_in')
+    def _(tx, mm):
+        mm['vin'].pop()
+        tx.vin.pop()
+        if mm.get('wit') is not None:
+            mm['wit'].pop()
+    return eds
